@@ -274,3 +274,46 @@ package router
 //@   loop 1(i) invariant forall(k, 0, i, ranges[k].Start == k * TableRowLimit && ranges[k].End == (k+1) * TableRowLimit)
 //@   ensures ret1 == nil
 //@   ensures forall(k, 0, len(ret0), ret0[k].Start == k * TableRowLimit && ret0[k].End == (k+1) * TableRowLimit)
+
+// ---------------------------------------------------------------- C10 the router's table layout is the validated one
+// (psum: prefix sums of the locations list, declared in package models; its two definitional axioms repeated for this file)
+//@ axiom psumZeroR for parseHashRuleSliceInfos: forall(l []int, psum(l, 0) == 0)
+//@ axiom psumStepR for parseHashRuleSliceInfos: forall(l []int, forall(i int, 0 <= i && i < len(l) ==> psum(l, i + 1) == psum(l, i) + l[i]))
+//@ constglobal errors.ErrLocationsCount
+//@ axiom errLocationsCountNonNilR: errors.ErrLocationsCount != nil
+//@ property C10: parseHashRuleSliceInfos, (*HashShard).FindForKey, (*ModShard).FindForKey
+// For a locations list the validator accepts (one entry per slice, no negative entry): the sub-table list is 0..n-1 in order
+// (n = sum of the locations), every listed table is mapped to exactly one slice, and table t belongs to the slice i with
+// psum(i) <= t < psum(i+1) -- the same layout models.verifyHashRuleSliceInfos computed when it accepted the rule.
+//@ func parseHashRuleSliceInfos
+//@   requires len(locations) <= 1024 && forall(k, 0, len(locations), 0 <= locations[k] && locations[k] <= 1<<20)
+//@   assigns \nothing
+//@   loop 0(i) invariant 0 <= i && i <= len(locations) && sumTables == psum(locations, i) && 0 <= sumTables && sumTables <= i * (1<<20) && fresh(tableToSlice) && (subTableIndexs == nil || fresh(subTableIndexs))
+//@   loop 0(i) invariant forall(k, 0, i, psum(locations, k) <= psum(locations, k + 1)) && forall(k, 0, i + 1, psum(locations, k) <= sumTables)
+//@   loop 0(i) invariant len(subTableIndexs) == sumTables && forall(q, 0, len(subTableIndexs), subTableIndexs[q] == q)
+//@   loop 0(i) invariant forall(t int, has(tableToSlice, t) <==> (0 <= t && t < sumTables))
+//@   loop 0(i) invariant forall(k, 0, i, forall(t int, psum(locations, k) <= t && t < psum(locations, k + 1) ==> tableToSlice[t] == k))
+//@   loop 1(j) invariant 0 <= j && j <= locations[i] && fresh(tableToSlice) && (subTableIndexs == nil || fresh(subTableIndexs)) && 0 <= i && i < len(locations) && sumTables == psum(locations, i)
+//@   loop 1(j) invariant len(subTableIndexs) == sumTables + j && forall(q, 0, len(subTableIndexs), subTableIndexs[q] == q)
+//@   loop 1(j) invariant forall(t int, has(tableToSlice, t) <==> (0 <= t && t < sumTables + j)) && forall(k, 0, i + 1, psum(locations, k) <= sumTables)
+//@   loop 1(j) invariant forall(k, 0, i, forall(t int, psum(locations, k) <= t && t < psum(locations, k + 1) ==> tableToSlice[t] == k)) && forall(t int, sumTables <= t && t < sumTables + j ==> tableToSlice[t] == i)
+//@   ensures case count:   (ret2 == nil) <==> (len(locations) == len(slices))
+//@   ensures case listed:  ret2 == nil ==> len(ret0) == psum(locations, len(locations)) && forall(q, 0, len(ret0), ret0[q] == q)
+//@   ensures case domain:  ret2 == nil ==> forall(t int, has(ret1, t) <==> (0 <= t && t < psum(locations, len(locations))))
+//@   ensures case layout:  ret2 == nil ==> forall(k, 0, len(locations), forall(t int, psum(locations, k) <= t && t < psum(locations, k + 1) ==> ret1[t] == k))
+
+// the sharding functions of hash and mod rules name only listed tables: 0 <= index < ShardNum, for every key
+// (ShardNum = number of listed tables > 0 for an accepted rule)
+//@ func HashValue
+//@   may-panic when true
+//@   assigns \nothing
+//@ func (*HashShard).FindForKey
+//@   requires s != nil && s.ShardNum > 0
+//@   may-panic when true
+//@   assigns \nothing
+//@   ensures ret1 == nil && 0 <= ret0 && ret0 < s.ShardNum
+//@ func (*ModShard).FindForKey
+//@   requires m != nil && m.ShardNum > 0
+//@   may-panic when true
+//@   assigns \nothing
+//@   ensures ret1 == nil && 0 <= ret0 && ret0 < m.ShardNum
